@@ -301,6 +301,9 @@ func GenLayout(t *rapid.T, nRev int) Layout {
 	}
 	l.Predictor = b("predictor")
 	l.TIFFPred = b("tiffPredictor")
+	if l.Predictor && !l.TIFFPred && b("predColors") {
+		l.PredColors = rapid.IntRange(2, 4).Draw(t, "colors")
+	}
 	l.Length = rapid.SampledFrom([]string{"direct", "direct", "before", "after"}).Draw(t, "length")
 	l.LengthInObjStm = b("lengthInObjStm")
 	l.Split = rapid.IntRange(1, 3).Draw(t, "split")
